@@ -213,3 +213,43 @@ func zzH_C15_codec() {
 	zzAssert(b.EncodeRLP(&buf2) == nil && zzBytesEq(buf2.Bytes(), enc), "re-encoding the decoded entry is byte-identical")
 	zzReach("roundtrip")
 }
+
+// The construction-time list (maps keyed by slot and index) converts to an encoding object that
+// passes validation and holds exactly what was recorded, in canonical order, whatever order the
+// changes were recorded in.
+func zzH_C15_to_encoding() {
+	b := NewConstructionBlockAccessList()
+	addr := common.Address{19: 7}
+	i1, i2 := uint32(zzNondetU16()), uint32(zzNondetU16())
+	zzAssume(i1 != i2)
+	var bal1, bal2 uint256.Int
+	bal1[0], bal2[0] = zzNondetU64(), zzNondetU64()
+	b.BalanceChange(i1, addr, &bal1)
+	b.BalanceChange(i2, addr, &bal2)
+	n1, n2 := zzNondetU64(), zzNondetU64()
+	b.NonceChange(addr, i1, n1)
+	b.NonceChange(addr, i2, n2)
+	b.CodeChange(addr, i1, []byte{zzNondetU8()})
+	b.CodeChange(addr, i2, []byte{zzNondetU8()})
+	s1, s2 := common.Hash{31: zzNondetU8()}, common.Hash{31: zzNondetU8()}
+	zzAssume(s1 != s2)
+	b.StorageWrite(i1, addr, s1, common.Hash{31: 1})
+	b.StorageWrite(i2, addr, s1, common.Hash{31: 2})
+	b.StorageRead(addr, s2)
+	enc := b.ToEncodingObj()
+	zzAssert(len(*enc) == 1, "one account")
+	a := (*enc)[0]
+	zzAssert(a.Address == addr, "address kept")
+	zzAssert(len(a.BalanceChanges) == 2 && len(a.NonceChanges) == 2 && len(a.CodeChanges) == 2 && len(a.StorageChanges) == 1 && len(a.StorageReads) == 1, "every recorded change appears once")
+	zzAssert(len(a.StorageChanges[0].SlotChanges) == 2, "both writes to the slot appear")
+	lo, hi := i1, i2
+	if lo > hi {
+		lo, hi = hi, lo
+	}
+	zzAssert(a.BalanceChanges[0].BlockAccessIndex == lo && a.BalanceChanges[1].BlockAccessIndex == hi, "balance changes in index order")
+	zzAssert(a.NonceChanges[0].BlockAccessIndex == lo && a.NonceChanges[1].BlockAccessIndex == hi, "nonce changes in index order")
+	zzAssert(a.CodeChanges[0].BlockAccessIndex == lo && a.CodeChanges[1].BlockAccessIndex == hi, "code changes in index order")
+	zzAssert(a.StorageChanges[0].SlotChanges[0].BlockAccessIndex == lo && a.StorageChanges[0].SlotChanges[1].BlockAccessIndex == hi, "storage writes in index order")
+	zzAssert(enc.Validate(1<<40, 1<<16) == nil, "the converted list passes validation")
+	zzReach("converted")
+}
